@@ -563,6 +563,10 @@ func TestVerifC05(t *testing.T) {
 		{"undefined metadata in tuple", "!0 = !{!7}\n"},
 		{"metadata id defined twice", "!0 = !{}\n!0 = !{}\n"},
 		{"comdat defined twice", "$c = comdat any\n$c = comdat any\n"},
+		{"unnamed global @0 defined twice", "@0 = global i32 0\n@0 = global i32 1\n"},
+		{"unnamed function @0 defined twice", "define void @0() {\n\tret void\n}\ndefine void @0() {\n\tret void\n}\n"},
+		{"unnamed local %1 defined twice", "define i32 @f() {\n\t%1 = add i32 1, 2\n\t%1 = add i32 1, 2\n\tret i32 %1\n}\n"},
+		{"unnamed parameter %0 defined twice", "define void @f(i32 %0, i32 %0) {\n\tret void\n}\n"},
 		{"local used in other function", "define i32 @f(i32 %x) {\n\t%y = add i32 %x, 1\n\tret i32 %y\n}\ndefine i32 @g() {\n\tret i32 %y\n}\n"},
 	} {
 		try("fault "+f.name, f.src)
@@ -572,7 +576,7 @@ func TestVerifC05(t *testing.T) {
 	if _, err := ParseString("attr.ll", "define void @f() #7 {\n\tret void\n}\n"); err != nil {
 		fail("undefined attribute group ID must be accepted (documented exception): %v", err)
 	}
-	fmt.Printf("REPLAY-SAMPLE faults injected into %d corpus modules plus 18 hand-written faults\n", len(verifCorpus))
+	fmt.Printf("REPLAY-SAMPLE faults injected into %d corpus modules plus 22 hand-written faults\n", len(verifCorpus))
 	fmt.Printf("REPLAY-CASES %d\n", cases)
 	if fails > 0 {
 		t.Fatalf("%d failures", fails)
